@@ -492,6 +492,7 @@ func main() {
 			os.Exit(2)
 		}
 		defer gw.close()
+		c.Note("handler chain: %s", chainSource)
 		if c.Replay != "" {
 			var probe struct{ Key, S *string }
 			if err := c.LoadReplay(&probe); err == nil && probe.Key != nil {
